@@ -42,7 +42,7 @@ func stressMain(args []string) {
 	case "queries":
 		out["problems"] = append(stressQueries(*rounds, *workers, *seed), stressDeepEqual(*rounds/10+2, *workers)...)
 	case "options":
-		out["problems"] = stressOptions(*rounds, *workers, *seed)
+		out["problems"] = append(stressOptions(*rounds, *workers, *seed), stressFIFOLatch(*rounds/3+6)...)
 	}
 	b, _ := json.Marshal(out)
 	fmt.Println(string(b))
@@ -427,6 +427,19 @@ func stressDeepEqual(rounds, workers int) []string {
 		a, b := chain(depth, true, "x"), chain(depth, true, "x")
 		small1, small2 := chain(4, false, "y"), chain(4, false, "y")
 		diff1, diff2 := chain(depth, false, "p"), chain(depth, false, "q")
+		// Unmarshal of a 1500-level chain whose innermost Condition answers slowly: every
+		// caller dwells at full depth; alone it succeeds with a two-entry result
+		um := stk.Or().Push("bottom", stk.Cond("slow", stk.Eq, "v").SetUnmarshaler(func(...any) ([]any, error) {
+			time.Sleep(3 * time.Millisecond)
+			return []any{"CONDITION", "slow", stk.Eq, "v"}, nil
+		}))
+		for d := 0; d < 1500; d++ {
+			um = stk.And().Push(um)
+		}
+		if u, err := um.Unmarshal(); err != nil || len(u) != 2 {
+			problems = append(problems, fmt.Sprintf("deep-equal round %d: Unmarshal of the deep chain alone: %d entries, err %v", round, len(u), err))
+			continue
+		}
 		alone := []bool{a.IsEqual(b) == nil, small1.IsEqual(small2) == nil, diff1.IsEqual(diff2) == nil}
 		if !alone[0] || !alone[1] || alone[2] {
 			problems = append(problems, fmt.Sprintf("deep-equal round %d: alone the answers are %v, want [true true false]", round, alone))
@@ -445,6 +458,13 @@ func stressDeepEqual(rounds, workers int) []string {
 						pmu.Unlock()
 					}
 				}()
+				if u, err := um.Unmarshal(); err != nil || len(u) != 2 {
+					pmu.Lock()
+					if len(problems) < 10 {
+						problems = append(problems, fmt.Sprintf("deep-equal round %d: Unmarshal of the deep chain among %d concurrent callers: %d entries, err %v; alone 2 entries, no error", round, workers+4, len(u), err))
+					}
+					pmu.Unlock()
+				}
 				for i := 0; i < 4; i++ {
 					var got bool
 					var which int
@@ -472,6 +492,56 @@ func stressDeepEqual(rounds, workers int) []string {
 		case <-finished:
 		case <-time.After(90 * time.Second):
 			return append(problems, fmt.Sprintf("deep-equal round %d: the comparisons did not finish within 90s", round))
+		}
+	}
+	return problems
+}
+
+// stressFIFOLatch: FIFO mode, once switched on, stays on - also when calls that
+// ask for "off" were issued before the "on" call and finish after it.  One
+// goroutine dwells inside Push's critical section (a push policy that takes
+// its time) while several SetFIFO(false) and one SetFIFO(true) are issued.
+func stressFIFOLatch(rounds int) []string {
+	var problems []string
+	for round := 0; round < rounds; round++ {
+		s := stk.And().Push("a")
+		s.SetMutex()
+		entered := make(chan struct{})
+		var once sync.Once
+		s.SetPushPolicy(func(...any) error {
+			once.Do(func() { close(entered) })
+			time.Sleep(4 * time.Millisecond)
+			return nil
+		})
+		var wg sync.WaitGroup
+		wg.Add(1)
+		go func() { defer wg.Done(); defer func() { recover() }(); s.Push("x") }()
+		select {
+		case <-entered:
+		case <-time.After(10 * time.Second):
+			problems = append(problems, fmt.Sprintf("fifo round %d: the push policy was never consulted", round))
+			continue
+		}
+		for k := 0; k < 3+round%3; k++ {
+			wg.Add(1)
+			go func() { defer wg.Done(); defer func() { recover() }(); s.SetFIFO(false) }()
+		}
+		time.Sleep(time.Duration(200*(round%4)) * time.Microsecond)
+		wg.Add(1)
+		go func() { defer wg.Done(); defer func() { recover() }(); s.SetFIFO(true) }()
+		for k := 0; k < 2; k++ {
+			wg.Add(1)
+			go func() { defer wg.Done(); defer func() { recover() }(); s.SetFIFO(false) }()
+		}
+		finished := make(chan bool, 1)
+		go func() { wg.Wait(); finished <- true }()
+		select {
+		case <-finished:
+		case <-time.After(60 * time.Second):
+			return append(problems, fmt.Sprintf("fifo round %d: SetFIFO calls against a Push did not finish within 60s", round))
+		}
+		if !s.IsFIFO() {
+			problems = append(problems, fmt.Sprintf("fifo round %d: SetFIFO(true) returned, yet the stack is not in FIFO mode afterwards (a SetFIFO(false) issued earlier switched it off)", round))
 		}
 	}
 	return problems
